@@ -190,7 +190,7 @@ pub fn generate(rng: &mut Rng, property: &str, deep: bool) -> BScn {
 
     // ---- frames --------------------------------------------------------------------------------
     let fault_free = rng.below(8) == 0;
-    let mut on = |rng: &mut Rng, p: f64| -> f64 {
+    let on = |rng: &mut Rng, p: f64| -> f64 {
         if fault_free {
             0.0
         } else if rng.chance(0.5) {
@@ -260,6 +260,10 @@ pub fn generate(rng: &mut Rng, property: &str, deep: bool) -> BScn {
     let mut insert_selector_at = insert_selector_at;
     let insert_after_end = cfg.selector_inserted_later && cfg.selector_animator_prebuilt && rng.chance(0.5);
     let mut selector_present = cfg.selector && !cfg.selector_inserted_later;
+    let mut selector_removed = false;
+    let p_extra_parts = if cfg.extra_entity.is_some() { on(rng, 0.04) } else { 0.0 };
+    let p_remove_selector = if cfg.selector { on(rng, 0.02) } else { 0.0 };
+    let p_edit_timelines = if cfg.selector { on(rng, 0.05) } else { 0.0 };
     if cfg.selector && !selector_present {
         // until the selector arrives the prebuilt animator (if any) plays its own timeline
         cur_tl = if cfg.selector_animator_prebuilt { cfg.initial_tl } else { None };
@@ -272,6 +276,13 @@ pub fn generate(rng: &mut Rng, property: &str, deep: bool) -> BScn {
         }
         if extra_despawn_at == Some(frame_no) {
             ops.push(BOp::DespawnExtra);
+        }
+        if cfg.extra_entity.is_some() && rng.chance(p_extra_parts) {
+            ops.push(match rng.below(3) {
+                0 => BOp::ExtraRemoveTarget,
+                1 => BOp::ExtraInsertTarget,
+                _ => BOp::ExtraReplaceAnimator(rng.usize_below(cfg.tls.len())),
+            });
         }
         if selector_present && rng.chance(p_chain_toggle) {
             chain_present = !chain_present;
@@ -287,6 +298,28 @@ pub fn generate(rng: &mut Rng, property: &str, deep: bool) -> BScn {
             cur_tl = cfg.keys[cfg.initial_key as usize];
             pos_ns = 0;
             ended = false;
+        }
+        // the selector component removed / re-attached, its timelines map edited at run time
+        if cfg.selector && selector_present && rng.chance(p_remove_selector) {
+            ops.push(BOp::RemoveSelector);
+            selector_present = false;
+            selector_removed = true;
+        } else if cfg.selector && selector_removed && !selector_present && rng.chance(0.25) {
+            ops.push(BOp::InsertSelector);
+            selector_present = true;
+            selector_removed = false;
+            chain_present = true;
+            cur_key = cfg.initial_key;
+            cur_tl = cfg.keys[cfg.initial_key as usize];
+            pos_ns = 0;
+            ended = false;
+        }
+        if cfg.selector && selector_present && rng.chance(p_edit_timelines) {
+            let key = if rng.chance(0.4) { cur_key } else { rng.below(n_keys as u64) as Key };
+            ops.push(BOp::EditTimelines {
+                key,
+                tl: if rng.chance(0.7) { Some(rng.usize_below(cfg.tls.len())) } else { None },
+            });
         }
         // user: key assignments
         let p_k = if just_ended { p_key.max(p_after_end) } else { p_key };
